@@ -415,6 +415,8 @@ def bytes_method(ex, recv, name, args, kwargs):
                 return recv.decode(*args, **kwargs)
             except Exception as e:
                 raise PyExc(e)
+        if DECODE_MODEL is not None:
+            return DECODE_MODEL(ex, recv, args, kwargs)  # (an extension models decoded text, see ext_c18.Utf8Str)
         return OpaqueStr()
     if name == 'join':
         items = ex.concrete_iter(args[0])
@@ -464,6 +466,9 @@ def bytes_method(ex, recv, name, args, kwargs):
         except Exception as e:
             raise PyExc(e)
     raise Unsupported(f'bytes.{name}')
+
+
+DECODE_MODEL = None
 
 
 def int_method(ex, recv, name, args, kwargs):
